@@ -58,7 +58,11 @@ def regions(evs):
 
 def preconditions(evs, n):
     """(only_regions_unsorted, within_window, clocks_signed), written from the
-    property statement, index based."""
+    property statement, index based.  within_window: every closed non-empty
+    region whose events are not already in place (non-decreasing from the OU[
+    marker on) has its destination inside the look-back: fewer than n-1 events
+    precede its OU], or fewer than n-1 of them (and not all) have a clock >=
+    the minimum clock of the region."""
     regs = regions(evs)
     closed = all(c is not None for (_, c) in regs)
     inside = set()
@@ -73,6 +77,8 @@ def preconditions(evs, n):
     for (o, c) in regs:
         if c is None or c == o + 1:
             continue
+        if all(evs[j][0] <= evs[j + 1][0] for j in range(o, c - 1)):
+            continue            # already in place after its OU[ marker: nothing to move, no window needed
         m = min(evs[j][0] for j in range(o + 1, c))
         g = sum(1 for j in range(c) if evs[j][0] >= m)
         if not (c + 1 < n or (g + 1 < n and g < c)):
@@ -242,7 +248,7 @@ def model_class(st):
 
 
 def run_impl(bdir, d, n, body):
-    """ovnisort [-n N]; ovnisort again; ovnisort -c; ovniemu -l. Returns dict."""
+    """ovnisort [-n N]; ovnisort -c; ovnisort again, and a third time; ovniemu -l. Returns dict."""
     s = Stream(tid=1, pid=1, cpus=[(0, 0)])
     s.raw_obs = HDR + body
     write_trace(d, [s])
@@ -260,6 +266,10 @@ def run_impl(bdir, d, n, body):
     out["rc2"], out["err2"] = rc, err
     with open(obs, "rb") as f:
         out["obs2"] = f.read()
+    rc, _, err = run_tool(tool, nargs + [d], timeout=30)
+    out["rc3"], out["err3"] = rc, err
+    with open(obs, "rb") as f:
+        out["obs3"] = f.read()
     if out["rc1"] == 0:
         rc, err = run_emu(bdir, d, ["-l"], timeout=30)
         out["emu"] = verdict(rc, err)
@@ -281,9 +291,12 @@ def check(res, tier, replay=None):
                        "0..16-byte and jumbo payloads, 1–4 OU[ OU] regions reaching back around the look-back n, equal "
                        "clocks, internally unordered regions; minority malformed: unterminated region, clock lowered "
                        "outside a region, clock >= 2^63, truncated last event, stray markers, no events) through the "
-                       "real `ovnisort [-n N]`, `ovnisort -c`, `ovnisort` again, `ovniemu -l`; stream.obs byte-compared "
-                       "with the Lean model (drv_ovnisort), exit class compared; Python oracle: stable sort, "
-                       "permutation, untouched prefix, idempotence, -c verdict, loud failure. thorough adds all "
+                       "real `ovnisort [-n N]`, `ovnisort -c`, `ovnisort` a second and a third time, `ovniemu -l`; "
+                       "stream.obs byte-compared with the Lean model (drv_ovnisort) after each run, exit class compared; "
+                       "Python oracle: stable sort, permutation, untouched prefix, -c verdict, loud failure, and as hard "
+                       "requirements: a sorted input is left byte-identical with exit 0, and whenever a run leaves a "
+                       "sorted stream the next two runs exit 0 and change no byte. The corpus starts with the witness "
+                       "on which the second run used to fail. thorough adds all "
                        "streams of <=4 events over {OB.,OU[,OU]}x{1,2,3} (<=5 over 2 clocks) for n in 2..5. "
                        "non-trivial = at least one sort plan executed or a destination search failed")
     res.assumptions = ["qsort of glibc is stable for these sizes (merge sort); the correspondence compares bytes, so a "
@@ -303,10 +316,20 @@ def check(res, tier, replay=None):
                     kv = dict(t.split("=", 1) for t in l.split()[1:])
                     cases.append((None if kv["n"] == "default" else int(kv["n"]), unhx(kv["body"]), {"replay"}))
         else:
-            # fixed corpus: the witness that a second run with the same -n may fail
-            w = [(0, "OHx"), (1, "OU["), (2, "OB."), (3, "OB."), (4, "OB."), (20, "OU]"), (21, "OU["),
-                 (10, "OB."), (11, "OB."), (12, "OB."), (22, "OU]"), (30, "OHe")]
-            cases.append((7, b"".join(OHX(c) if m == "OHx" else ev_bytes(c, m) for (c, m) in w), {"corpus"}))
+            # fixed corpus, run first: the witness on which a second run with the same -n failed before
+            # region_in_place (events moved in front of the first OU] enlarge that region beyond the window),
+            # the same with equal clocks at the junction, and sorted streams whose regions have no event with
+            # a strictly smaller clock within the look-back (the first run failed on them)
+            def corpus(n, w):
+                cases.append((n, b"".join(OHX(c) if m == "OHx" else ev_bytes(c, m) for (c, m) in w), {"corpus"}))
+            corpus(7, [(0, "OHx"), (1, "OU["), (2, "OB."), (3, "OB."), (4, "OB."), (20, "OU]"), (21, "OU["),
+                       (10, "OB."), (11, "OB."), (12, "OB."), (22, "OU]"), (30, "OHe")])
+            corpus(7, [(0, "OHx"), (1, "OU["), (2, "OB."), (3, "OB."), (4, "OB."), (20, "OU]"), (21, "OU["),
+                       (4, "OB."), (4, "OB."), (20, "OB."), (22, "OU]"), (30, "OHe")])
+            corpus(3, [(5, "OHx"), (5, "OB."), (5, "OB."), (5, "OU["), (5, "OB."), (5, "OU]"), (6, "OHe")])
+            corpus(2, [(0, "OHx"), (1, "OB."), (2, "OB."), (3, "OB."), (4, "OU["), (5, "OB."), (6, "OB."),
+                       (7, "OU]"), (8, "OHe")])
+            corpus(1, [(0, "OHx"), (1, "OU["), (1, "OB."), (1, "OU]"), (2, "OHe")])
             for _ in range(2500 if tier == "quick" else 20000):
                 cases.append(gen_case(r, res))
             if tier == "thorough":
@@ -322,6 +345,13 @@ def check(res, tier, replay=None):
         # ---- model: second pass and check mode on the model's own result
         lines2 = [f"ws {nn[i]} {m1[i].split()[2]}" for i in range(len(cases))]
         _, m2, _ = engine.run_lines(drv, lines2, timeout=3000)
+        if len(m2) != len(lines2):
+            prep.problems.append("drv_ovnisort stopped early in the second pass")
+            m2 += ["ws die-driver - plans=- empty=0 pre=000"] * (len(lines2) - len(m2))
+        _, m3, _ = engine.run_lines(drv, [f"ws {nn[i]} {m2[i].split()[2]}" for i in range(len(cases))], timeout=3000)
+        if len(m3) != len(lines2):
+            prep.problems.append("drv_ovnisort stopped early in the third pass")
+            m3 += ["ws die-driver - plans=- empty=0 pre=000"] * (len(lines2) - len(m3))
         _, mc, _ = engine.run_lines(drv, [f"chk {m1[i].split()[2]}" for i in range(len(cases))], timeout=3000)
         # ---- implementation
         with Scratch("c16") as d:
@@ -346,12 +376,13 @@ def check(res, tier, replay=None):
                 res.dist("plans:%d" % min(len(mplans.split(",")), 4))
             if i < 3 or (mstat != "ok" and len(res.cov["samples"]) < 5):
                 res.sample({"case": canon[:300], "model": " ".join(mo[:2] + mo[3:]), "ovnisort_rc": im["rc1"],
-                            "ovnisort_c_rc": im["rcc"], "second_rc": im["rc2"], "ovniemu": im["emu"]})
+                            "ovnisort_c_rc": im["rcc"], "second_rc": im["rc2"], "third_rc": im["rc3"], "ovniemu": im["emu"]})
 
             def viol(key, text):
                 nonlocal found
                 found = res.violation(key, text, canon + f"\n# model: {' '.join(mo[:2] + mo[3:])}\n# impl: rc={im['rc1']} "
-                              f"rc-c={im['rcc']} rc2={im['rc2']} emu={im['emu']}\n# stderr: {im['err1'][-600:]!r}\n"
+                              f"rc-c={im['rcc']} rc2={im['rc2']} rc3={im['rc3']} emu={im['emu']}\n"
+                              f"# stderr: {im['err1'][-600:]!r}\n# stderr of the second run: {im['err2'][-400:]!r}\n"
                               f"# impl stream.obs body after: {hx(im['obs1'][8:])}\n"
                               f"# replay: checks/check.py C16 --replay <this file>") or found
 
@@ -369,7 +400,27 @@ def check(res, tier, replay=None):
                 viol("corr:preconditions", f"Lean preconditions {mpre} vs Python {(only, win, clk)}")
             if status_class(im["rc2"], im["err2"]) != model_class(m2[i].split()[1]) or im["obs2"][8:] != unhx(m2[i].split()[2]):
                 viol("corr:second-run", f"second run rc={im['rc2']} vs model {m2[i].split()[1]}, or bytes differ")
+            if status_class(im["rc3"], im["err3"]) != model_class(m3[i].split()[1]) or im["obs3"][8:] != unhx(m3[i].split()[2]):
+                viol("corr:third-run", f"third run rc={im['rc3']} vs model {m3[i].split()[1]}, or bytes differ")
             oevs, otrunc = decode(out1)
+            # -- hard requirements (sorted_input_noop, second_run_noop): a sorted stream is left alone with
+            #    exit 0, whatever its regions and the look-back; so the run after a run that left a sorted
+            #    stream (in particular after every successful sort) exits 0 and changes no byte, and so does
+            #    the one after that
+            if evs and not trunc and is_sorted(evs):
+                res.dist("input-already-sorted")
+                if im["rc1"] != 0:
+                    viol("oracle:sorted-input-status", f"input already sorted but ovnisort exits {im['rc1']}")
+                if out1 != body:
+                    viol("oracle:sorted-input-bytes", "input already sorted but ovnisort changed the stream")
+            if oevs and not otrunc and is_sorted(oevs):
+                if im["rc2"] != 0 or im["rc3"] != 0:
+                    res.dist("second-run-fails")
+                    viol("oracle:second-run-status",
+                         f"ovnisort run again with the same -n on a sorted stream (left by the previous run, "
+                         f"rc={im['rc1']}) fails: second rc={im['rc2']}, third rc={im['rc3']}")
+                if im["obs2"] != im["obs1"] or im["obs3"] != im["obs1"]:
+                    viol("oracle:second-run-bytes", "sorting again changed a sorted stream")
             want_c = (not otrunc) and len(oevs) > 0 and is_sorted(oevs)
             if (im["rcc"] == 0) != want_c:
                 viol("oracle:check-mode", f"ovnisort -c rc={im['rcc']} but stream sorted={want_c}")
@@ -400,12 +451,12 @@ def check(res, tier, replay=None):
                     else:
                         if im["rcc"] != 0:
                             viol("oracle:check-after-sort", "ovnisort -c fails after a successful sort")
-                        if im["obs2"] != im["obs1"]:
-                            viol("oracle:second-run-bytes", "sorting again changed the stream")
-                        if im["rc2"] != 0:
-                            res.dist("second-run-fails")
+                        if im["rc2"] != 0 or im["rc3"] != 0 or im["obs2"] != im["obs1"] or im["obs3"] != im["obs1"]:
+                            # (also reported above with the generic keys; this one is the finding
+                            # recorded in KNOWN_FINDINGS before region_in_place)
                             viol("second-run-fails-same-lookback",
-                                 "second ovnisort with the same -n fails on its own sorted output")
+                                 f"after a successful sort the second / third ovnisort with the same -n: "
+                                 f"rc={im['rc2']}/{im['rc3']}, bytes changed={im['obs2'] != im['obs1'] or im['obs3'] != im['obs1']}")
                         if "exhaustive" not in tags and "mal:stray-marker" not in tags and im["emu"] != "ok":
                             viol("oracle:emu", f"ovniemu -l verdict {im['emu']} after a successful sort")
                 else:
